@@ -18,6 +18,8 @@ import (
 	"fmt"
 	"io/fs"
 	"math/rand"
+	"net/http"
+	"net/url"
 	"sort"
 	"strconv"
 	"strings"
@@ -31,6 +33,7 @@ import (
 
 	"verifharness/pkg/doubles"
 	"verifharness/pkg/emit"
+	"verifharness/pkg/mockca09"
 )
 
 const (
@@ -52,6 +55,8 @@ type c01issThread struct {
 	IssDue   bool   `json:"issdue,omitempty"`
 	Interval bool   `json:"interval,omitempty"` // clean: opts.Interval > 0
 	Newer    bool   `json:"newer,omitempty"`    // ari: storage holds newer renewal info
+	Cb       bool   `json:"cb,omitempty"`       // acct: NewAccountFunc configured
+	Email    string `json:"email,omitempty"`    // acct: account e-mail address
 }
 
 type c01issSeed struct {
@@ -60,8 +65,8 @@ type c01issSeed struct {
 }
 
 type c01issCase struct {
-	Threads          []c01issThread       `json:"threads"`
-	Seeds            []c01issSeed         `json:"seeds,omitempty"`
+	Threads          []c01issThread    `json:"threads"`
+	Seeds            []c01issSeed      `json:"seeds,omitempty"`
 	LastClean        string            `json:"last_clean,omitempty"` // "" | recent | old
 	Policy           string            `json:"policy"`               // seq | rr | random | sticky | script
 	SchedSeed        int64             `json:"sched_seed,omitempty"`
@@ -71,6 +76,8 @@ type c01issCase struct {
 	AllowOverlap     bool              `json:"allow_overlap,omitempty"`
 	AllowSaveFault   bool              `json:"allow_save_fault,omitempty"`
 	AllowUnlockFault bool              `json:"allow_unlock_fault,omitempty"`
+	AcctSeed         map[string]string `json:"acct_seed,omitempty"`   // e-mail -> full | regonly: account already in storage
+	CancelWait       map[string]int    `json:"cancel_wait,omitempty"` // tid -> cancel the request after it has been waiting for its lock for that many steps of others
 	Class            string            `json:"class"`
 }
 
@@ -83,23 +90,23 @@ type c01issStep struct {
 }
 
 type c01issObs struct {
-	Cfgs        [][]int   `json:"-"`
-	Init        [][]int   `json:"-"`
+	Cfgs        [][]int      `json:"-"`
+	Init        [][]int      `json:"-"`
 	Steps       []c01issStep `json:"steps"`
-	Results     []int     `json:"results"`
-	Seen        []int     `json:"seen"`
-	Final       [][]int   `json:"final"`
-	RwLeft      int       `json:"rw_left"`
-	LastPresent int       `json:"last_clean_present"`
-	Held        int       `json:"held_locks"`
-	Recorded    int       `json:"recorded_locks"`
-	Issues      int       `json:"issues"`
-	Overlap     bool      `json:"overlap"`
-	SaveFault   bool      `json:"save_fault"`
-	Deadlock    bool      `json:"deadlock"`
-	Sched       []int     `json:"-"`
-	Names       []string  `json:"names"`
-	LockNames   []string  `json:"lock_names"`
+	Results     []int        `json:"results"`
+	Seen        []int        `json:"seen"`
+	Final       [][]int      `json:"final"`
+	RwLeft      int          `json:"rw_left"`
+	LastPresent int          `json:"last_clean_present"`
+	Held        int          `json:"held_locks"`
+	Recorded    int          `json:"recorded_locks"`
+	Issues      int          `json:"issues"`
+	Overlap     bool         `json:"overlap"`
+	SaveFault   bool         `json:"save_fault"`
+	Deadlock    bool         `json:"deadlock"`
+	Sched       []int        `json:"-"`
+	Names       []string     `json:"names"`
+	LockNames   []string     `json:"lock_names"`
 }
 
 type c01Intern struct {
@@ -157,6 +164,8 @@ type c01issRT struct {
 	waitLock string
 	unpaused bool
 	ariCert  certmagic.Certificate
+	acme     *certmagic.ACMEIssuer
+	waited   int
 	usedF    map[string]bool
 }
 
@@ -175,7 +184,13 @@ type c01issEnv struct {
 	rnd      *rand.Rand
 	last     int
 	scriptI  int
+	acctKeys map[string][2]int    // storage key -> (name class, kind) of account registrations / keys
+	acctName map[string][2]string // "acct:<email>" -> registration key, private-key key
 }
+
+// the mock ACME server of the account-registration program (one per process)
+var c09CA *mockca09.CA
+var c09CAOnce sync.Once
 
 var c01ErrInjected = errors.New("injected fault")
 
@@ -351,12 +366,67 @@ func (e *c01issEnv) setupThread(i int, sp c01issThread) (*c01issRT, error) {
 		progCode, flag = 3, c01B2i(sp.Interval)
 	case "ari":
 		progCode, flag = 4, c01B2i(sp.Newer)
+	case "acct":
+		progCode, flag = 5, c01B2i(sp.Cb)
 	default:
 		return nil, fmt.Errorf("unknown program %q", sp.Prog)
 	}
 	rt.ascii = c01ToASCII(rt.eff)
 	lk, pk, vk, idn := 0, 0, 0, 0
 	switch sp.Prog {
+	case "acct":
+		c09CAOnce.Do(func() {
+			c09CA = mockca09.New(mockca09.Options{AutoValidate: true, SkipSignatureCheck: true, NoKeepAlive: true})
+			// acmez caches the directory of a CA process-wide: fetch it once so that every run sees
+			// the same request sequence (newNonce, newAccount)
+			wcfg, wcache := doubles.NewConfig(doubles.NewMemBackend().Handle("warm"), certmagic.Config{}, certmagic.CacheOptions{})
+			wiss := certmagic.NewACMEIssuer(wcfg, certmagic.ACMEIssuer{CA: c09CA.URL, Agreed: true, Logger: zap.NewNop(),
+				HTTPProxy: func(*http.Request) (*url.URL, error) { return nil, nil }})
+			certmagic.VerifLocksSetEmail(wiss, "warm-up@example.com")
+			certmagic.VerifLocksNewACMEClientWithAccount(context.Background(), wiss, false, false)
+			wcache.Stop()
+		})
+		email := sp.Email
+		if email == "" {
+			email = "acct@example.com"
+		}
+		tmplIss := certmagic.ACMEIssuer{CA: c09CA.URL, Email: email, Agreed: true, Logger: zap.NewNop(),
+			// every request to the CA passes the issuer's proxy callback, on the caller's goroutine: the gate
+			HTTPProxy: func(req *http.Request) (*url.URL, error) {
+				_, err := e.b.Log.Begin(doubles.Op{Inst: rt.inst, Kind: "CAReq", Key: req.URL.Path})
+				return nil, err
+			}}
+		if sp.Cb {
+			tmplIss.NewAccountFunc = func(ctx context.Context, _ *certmagic.ACMEIssuer, acct acme.Account) (acme.Account, error) {
+				_, err := e.b.Log.Begin(doubles.Op{Inst: rt.inst, Kind: "Event", Key: "new_account_func"})
+				return acct, err
+			}
+		}
+		rt.acme = certmagic.NewACMEIssuer(rt.cfg, tmplIss)
+		certmagic.VerifLocksSetEmail(rt.acme, email)
+		rt.lockKey = certmagic.VerifLocksAccountRegLockKey(email)
+		reg, key := certmagic.VerifLocksAccountStorageKeys(rt.acme, c09CA.URL, email)
+		nm := "acct:" + email
+		vk = e.names.id(nm)
+		pk = vk
+		if _, done := e.acctName[nm]; !done {
+			e.acctName[nm] = [2]string{reg, key}
+			e.acctKeys[reg] = [2]int{vk, 2}
+			e.acctKeys[key] = [2]int{vk, 0}
+			if kind := e.cs.AcctSeed[email]; kind != "" {
+				regJSON, _ := json.Marshal(acme.Account{Status: "valid", Contact: []string{"mailto:" + email}, Location: c09CA.Base + "/acct/seeded"})
+				e.b.Put(reg, regJSON)
+				e.obs.Init = append(e.obs.Init, []int{0, vk, 2, 2, 0, 0, 0})
+				if kind == "full" {
+					_, _, keyPEM, err := e.ca.Leaf(doubles.LeafOpts{Names: []string{"acct.example"}, Serial: 4900})
+					if err != nil {
+						return nil, err
+					}
+					e.b.Put(key, keyPEM)
+					e.obs.Init = append(e.obs.Init, []int{0, vk, 0, 0, 0, 0, 0})
+				}
+			}
+		}
 	case "clean":
 		rt.lockKey = "storage_clean"
 	case "ari":
@@ -428,6 +498,8 @@ func (e *c01issEnv) body(rt *c01issRT) (res int) {
 		err = certmagic.CleanStorage(rt.ctx, rt.storage, opts)
 	case "ari":
 		_, _, err = certmagic.VerifLocksUpdateARI(rt.ctx, rt.cfg, rt.ariCert)
+	case "acct":
+		_, err = certmagic.VerifLocksNewACMEClientWithAccount(rt.ctx, rt.acme, false, false)
 	}
 	if err != nil {
 		return 1
@@ -534,7 +606,7 @@ func (e *c01issEnv) encodeOp(rt *c01issRT, op doubles.Op) ([4]int, string) {
 	case "Unlock":
 		return [4]int{8, e.lockT.id(op.Key), 0, 0}, desc
 	case "Event":
-		ev := map[string]int{"cert_obtaining": 0, "cert_obtained": 1, "cert_failed": 2, "cached_managed_cert": 3}
+		ev := map[string]int{"cert_obtaining": 0, "cert_obtained": 1, "cert_failed": 2, "cached_managed_cert": 3, "new_account_func": 4}
 		c, ok := ev[op.Key]
 		if !ok {
 			c = 99
@@ -546,9 +618,23 @@ func (e *c01issEnv) encodeOp(rt *c01issRT, op doubles.Op) ([4]int, string) {
 		return [4]int{11, e.ids.id(op.Key), 0, 0}, desc
 	case "AriGet":
 		return [4]int{12, 0, 0, 0}, desc
+	case "CAReq":
+		r := 9
+		switch {
+		case strings.HasSuffix(op.Key, "/dir"):
+			r = 0
+		case strings.HasSuffix(op.Key, "/new-nonce"):
+			r = 1
+		case strings.HasSuffix(op.Key, "/new-acct"):
+			r = 2
+		}
+		return [4]int{14, r, 0, 0}, desc
 	}
 	code, isStor := stor[op.Kind]
 	if isStor {
+		if v, ok := e.acctKeys[op.Key]; ok {
+			return [4]int{code, 0, v[0], v[1]}, desc
+		}
 		if op.Key == "last_clean.json" {
 			return [4]int{code, 2, 0, 0}, desc
 		}
@@ -765,7 +851,7 @@ func (e *c01issEnv) stepThread(rt *c01issRT) error {
 		if lo.Err != "" {
 			out = 2
 		}
-	case kind == "Event" || kind == "IssueStart" || kind == "IssueEnd" || kind == "AriGet" || kind == "LockAcquired":
+	case kind == "Event" || kind == "IssueStart" || kind == "IssueEnd" || kind == "AriGet" || kind == "LockAcquired" || kind == "CAReq":
 		if lo.Err != "" {
 			out = 2
 		}
@@ -779,6 +865,11 @@ func (e *c01issEnv) stepThread(rt *c01issRT) error {
 	e.obs.Steps = append(e.obs.Steps, c01issStep{Tid: rt.id, Fault: f, Op: enc, Out: out, Desc: desc})
 	e.obs.Sched = append(e.obs.Sched, rt.id)
 	e.last = rt.id
+	for _, o := range e.threads {
+		if o != rt && o.state == c01stBlocked {
+			o.waited++
+		}
+	}
 	if kind == "IssueStart" {
 		e.obs.Issues++
 	}
@@ -828,6 +919,19 @@ func (e *c01issEnv) stepThread(rt *c01issRT) error {
 	return nil
 }
 
+// dueCancelWait: a request whose planned cancellation while waiting for its lock is due
+func (e *c01issEnv) dueCancelWait() *c01issRT {
+	for _, rt := range e.threads {
+		if rt.state != c01stBlocked {
+			continue
+		}
+		if n, ok := e.cs.CancelWait[strconv.Itoa(rt.id)]; ok && rt.waited >= n {
+			return rt
+		}
+	}
+	return nil
+}
+
 func (e *c01issEnv) cancelBlocked(rt *c01issRT) error {
 	rt.canc = true
 	rt.state = c01stRunning
@@ -846,7 +950,8 @@ var c01issRetryOnce sync.Once
 func c01RunIssCase(cs c01issCase) (*c01issObs, error) {
 	c01issCAOnce.Do(func() { c01issCA = doubles.NewCA("issuance harness CA") })
 	c01issRetryOnce.Do(func() { certmagic.VerifLocksSetRetryIntervals([]time.Duration{3 * time.Millisecond}) })
-	e := &c01issEnv{cs: cs, b: doubles.NewMemBackend(), ca: c01issCA, arrivals: make(chan *c01issArrival, 64), rnd: rand.New(rand.NewSource(cs.SchedSeed))}
+	e := &c01issEnv{cs: cs, b: doubles.NewMemBackend(), ca: c01issCA, arrivals: make(chan *c01issArrival, 64), rnd: rand.New(rand.NewSource(cs.SchedSeed)),
+		acctKeys: map[string][2]int{}, acctName: map[string][2]string{}}
 	e.b.HonourCtx = true
 	if err := e.seed(); err != nil {
 		return nil, err
@@ -886,6 +991,12 @@ func c01RunIssCase(cs c01issCase) (*c01issObs, error) {
 		if steps > 5000 {
 			return nil, fmt.Errorf("lock-step driver: more than 5000 steps")
 		}
+		if w := e.dueCancelWait(); w != nil {
+			if err := e.cancelBlocked(w); err != nil {
+				return nil, err
+			}
+			continue
+		}
 		rt := e.pick()
 		if rt == nil {
 			var blocked *c01issRT
@@ -924,6 +1035,9 @@ func c01RunIssCase(cs c01issCase) (*c01issObs, error) {
 	}
 	for n, nm := range e.names.l {
 		kk, kc, km := e.siteKeys(nm)
+		if ak, ok := e.acctName[nm]; ok {
+			km, kk = ak[0], ak[1]
+		}
 		kb, hk := e.b.Get(kk)
 		cb, hc := e.b.Get(kc)
 		_, hm := e.b.Get(km)
@@ -1002,7 +1116,7 @@ func c01issWire(mode int, o *c01issObs) string {
 			enc.Int(v)
 		}
 	}
-	enc.Int(o.RwLeft).Int(o.LastPresent).Int(o.Held).Int(o.Recorded)
+	enc.Int(o.RwLeft).Int(o.LastPresent).Int(o.Held).Int(o.Recorded).Int(c01B2i(o.Deadlock))
 	return enc.String()
 }
 
